@@ -32,7 +32,28 @@ def _category(c, av):
         return z3.Or(*[c == x for x in [9, 10, 11, 12, 13, 28, 29, 30, 31, 32] + ws])
     if av in (sre_c.CATEGORY_NOT_SPACE, sre_c.CATEGORY_UNI_NOT_SPACE):
         return z3.Not(_category(c, sre_c.CATEGORY_SPACE))
+    if av in (sre_c.CATEGORY_WORD, sre_c.CATEGORY_UNI_WORD):
+        return z3.Or(*[z3.And(z3.UGE(c, a), z3.ULE(c, b)) if a != b else c == a for a, b in _word_ranges()])
+    if av in (sre_c.CATEGORY_NOT_WORD, sre_c.CATEGORY_UNI_NOT_WORD):
+        return z3.Not(_category(c, sre_c.CATEGORY_WORD))
     raise Unsupported("regex category %s" % av)
+
+
+_WORD = []
+
+
+def _word_ranges():
+    """code point ranges matching \\w in a str pattern (isalnum or '_'), from this interpreter"""
+    if not _WORD:
+        start = None
+        for i in range(0x110001):
+            w = i < 0x110000 and (chr(i).isalnum() or i == 95)
+            if w and start is None:
+                start = i
+            elif not w and start is not None:
+                _WORD.append((start, i - 1))
+                start = None
+    return _WORD
 
 
 def _in(c, items, ic):
